@@ -183,6 +183,8 @@ class Net:
         scripted = None
         if self.connect_outcomes is not None and self.connect_outcomes:
             scripted = self.connect_outcomes.pop(0)
+            if callable(scripted):
+                scripted = scripted()  # lazily concretised by the harness
         if self._fault_here():
             kind = self._kind()
             self.fault_fired = f"connect:{kind}"
